@@ -481,15 +481,15 @@ var caseStart atomic.Int64
 
 func watchdog(viol func(violation)) { watchdogFor("C18", "hang", viol) }
 
-// watchdogFor ends the process when a case does not return within 10 s (the
+// watchdogFor ends the process when a case does not return within 60 s (the
 // implementation hangs), after recording the case as a violation.
 func watchdogFor(prop, name string, viol func(violation)) {
 	for {
 		time.Sleep(500 * time.Millisecond)
 		st := caseStart.Load()
-		if st != 0 && time.Since(time.Unix(0, st)) > 10*time.Second {
+		if st != 0 && time.Since(time.Unix(0, st)) > 60*time.Second {
 			q, _ := currentCase.Load().(string)
-			viol(violation{prop, name, "x" + hex.EncodeToString([]byte(q)), "no result after 10s"})
+			viol(violation{prop, name, "x" + hex.EncodeToString([]byte(q)), "no result after 60s"})
 			fmt.Fprintln(os.Stderr, "HANG on case", strconv.Quote(q))
 			os.Exit(4)
 		}
